@@ -28,6 +28,36 @@ pub enum Case07 {
     /// `n` Parts carrying the properties of the spelling menu selected by `mask`: several spellings
     /// (canonical / alias / legacy) of one logical property on the same instance, with different values
     Spell { mask: u8, n: usize },
+    /// one instance carrying the names of a "near names" menu selected by `mask`: names that
+    /// share long prefixes, are prefixes of each other, differ in case or in a trailing space
+    /// (menu 0: unknown class; menu 1: StarterPlayer's GameSettings... properties)
+    Near { menu: u8, mask: u16 },
+}
+
+fn near_menu(menu: u8) -> (String, Vec<(String, PVal)>) {
+    use rbx_dom_weak::types::NumberRange;
+    if menu == 0 {
+        let long = "ZzCommonPrefix_0123456789abcdefghijklmnopqrstuvwxyz_";
+        let names: Vec<String> = vec![
+            format!("{}A", long),
+            format!("{}B", long),
+            long[..25].to_owned(),
+            long[..23].to_owned(),
+            long[..25].to_lowercase(),
+            "Zz".to_owned(),
+            "ZzC".to_owned(),
+            format!("{}A ", long),
+            format!("{}\u{e9}", &long[..24]),
+            format!("{}\u{e8}", &long[..24]),
+        ];
+        ("ZzUnknown".to_owned(), names.into_iter().enumerate().map(|(i, n)| (n, PVal::V(Variant::Int32(i as i32)))).collect())
+    } else {
+        let ints = ["GameSettingsAssetIDRightArm", "GameSettingsAssetIDRightLeg", "GameSettingsAssetIDLeftArm", "GameSettingsAssetIDLeftLeg", "GameSettingsAssetIDHead"];
+        let ranges = ["GameSettingsScaleRangeHead", "GameSettingsScaleRangeHeight", "GameSettingsScaleRangeWidth"];
+        let mut v: Vec<(String, PVal)> = ints.iter().enumerate().map(|(i, n)| ((*n).to_owned(), PVal::V(Variant::Int64(100 + i as i64)))).collect();
+        v.extend(ranges.iter().enumerate().map(|(i, n)| ((*n).to_owned(), PVal::V(Variant::NumberRange(NumberRange::new(0.5 + i as f32, 2.0))))));
+        ("StarterPlayer".to_owned(), v)
+    }
 }
 
 fn spell_menu() -> Vec<(String, PVal)> {
@@ -75,6 +105,11 @@ pub fn plan_of(c: &Case07) -> Plan {
                 })
                 .collect();
             Plan { nodes, roots: RootSel::Nodes(vec![0]) }
+        }
+        Case07::Near { menu, mask } => {
+            let (class, m) = near_menu(*menu);
+            let props: Vec<(String, PVal)> = m.iter().enumerate().filter(|(b, _)| (mask >> b) & 1 == 1).map(|(_, p)| p.clone()).collect();
+            Plan { nodes: vec![PNode { class, name: "near".into(), parent: None, props }], roots: RootSel::Nodes(vec![0]) }
         }
         Case07::Spell { mask, n } => {
             let m = spell_menu();
@@ -201,6 +236,19 @@ fn variants(c: &Case07, tier: Tier) -> Vec<Variant07> {
                 j += 1;
             }
         }
+        Case07::Near { mask, .. } => {
+            // every insertion order of up to 5 properties, a spread of them beyond
+            let k = mask.count_ones() as usize;
+            let total = factorial(k);
+            let step = (total / 120).max(1);
+            let mut p = 0;
+            let mut j = 0usize;
+            while p < total {
+                v.push(Variant07 { how: (j % 3) as u8, ref_rot: (j / 2) % 8, fixed_refs: j % 2 == 0, perm: p });
+                p += step;
+                j += 1;
+            }
+        }
         Case07::Spell { .. } => {
             // every permutation of up to 6 properties (720), all three constructions in turn
             for p in 0..720 {
@@ -238,6 +286,16 @@ pub fn cases(tier: Tier) -> Vec<Case07> {
             out.push(Case07::Spell { mask, n });
         }
     }
+    for (menu, bits) in [(0u8, 10u32), (1, 8)] {
+        for mask in 0..(1u16 << bits) {
+            // quick: every pair and triple, and the full menu; thorough: every subset
+            let k = mask.count_ones();
+            if k < 2 || (tier == Tier::Quick && k > 3 && k != bits) {
+                continue;
+            }
+            out.push(Case07::Near { menu, mask });
+        }
+    }
     out
 }
 
@@ -270,6 +328,7 @@ pub fn judge_case(c: &Case07, tier: Tier, out: &mut SweepOut) -> Option<String> 
     let class = match c {
         Case07::Props { .. } => "props".to_owned(),
         Case07::Spell { .. } => "spellings".to_owned(),
+        Case07::Near { .. } => "near-names".to_owned(),
         Case07::Desc(d) => crate::codec::class_of(d),
     };
     let base = match outputs(&plan, &vs[0]) {
@@ -321,6 +380,7 @@ pub fn judge_case(c: &Case07, tier: Tier, out: &mut SweepOut) -> Option<String> 
     let small = match c {
         Case07::Props { n, k, .. } => *n <= 2 && *k <= 4,
         Case07::Spell { .. } => false,
+        Case07::Near { mask, .. } => mask.count_ones() <= 2,
         Case07::Desc(_) => plan.nodes.len() <= 2,
     };
     if small {
@@ -517,6 +577,7 @@ pub fn check(run: &Run) -> Value {
             let class = match &cs[*i] {
                 Case07::Props { .. } => "props".to_owned(),
         Case07::Spell { .. } => "spellings".to_owned(),
+                Case07::Near { .. } => "near-names".to_owned(),
                 Case07::Desc(d) => crate::codec::class_of(d),
             };
             total.violation(
